@@ -15,7 +15,7 @@ LEAN_MODULES = ["B2Z.Props.C03"]
 THEOREMS = [
     "B2Z.Pipe.C03_order_invariant", "B2Z.Pipe.C03_decomposition_invariant", "B2Z.Pipe.C03_chunks_only_change_grid",
     "B2Z.Pipe.C03_config_invariant", "B2Z.Pipe.C03_max_chunks_prefix", "B2Z.Pipe.C01_pipeline_refines_spec",
-    "B2Z.Checks.C03_file_order_invariant", "B2Z.Split.explodeOrder_meta", "B2Z.Split.C03_split_files_any_order",
+    "B2Z.Checks.C03_file_order_invariant", "B2Z.Split.explodeOrder_meta", "B2Z.Split.C03_split_files_any_order", "B2Z.Pipe.C03_cap_is_prefix",
 ]
 GEN_DEPENDS = ["Checks."]
 ASSUMPTIONS = [
